@@ -8,7 +8,7 @@ VARIABLES ci, ei, st, nj, ns, ne
 Mats == << << <<1,0,0>>, <<0,1,0>>, <<0,0,1>> >>, << <<0,-1,0>>, <<1,0,0>>, <<0,0,1>> >>, << <<0,0,1>>, <<1,0,0>>, <<0,1,0>> >>,
            << <<-1,0,0>>, <<0,-1,0>>, <<0,0,1>> >>, << <<1,0,0>>, <<0,0,-1>>, <<0,1,0>> >>, << <<0,1,0>>, <<0,0,1>>, <<1,0,0>> >> >>
 InitState(c) == [g |-> [P |-> c.given.P, F |-> c.given.F, E |-> c.given.E, C |-> c.given.C],
-                 D |-> Derive(c.given.F, Len(c.given.P), c.given.E), fam |-> c.given.family, moved |-> "still", stored |-> FALSE, ncalls |-> [n \in {} |-> 0]]
+                 D |-> Derive(c.given.F, Len(c.given.P), c.given.E), fam |-> c.given.family, moved |-> "still", stored |-> FALSE, tiny |-> c.given.scale10 > 0, ncalls |-> [n \in {} |-> 0]]
 NV(s) == Len(s.g.P)
 Each(n, f(_)) == [i \in 1..n |-> f(i)]
 SqOf(x) == R(x)
@@ -62,8 +62,14 @@ Expected(s, e) ==        \* the sequence of expected surrogates, or NA
     [] nm \in {"interp_v2f", "interp_f2v", "scatter_v2c", "avg_c2v", "scatter_f2c", "avg_c2f"} ->     \* a constant stays that constant
          Each(e.n, LAMBDA i : <<7, 2>>)
     [] OTHER -> <<>>
+(* homogeneity degree of every quantity in the size of the mesh: the driver multiplies the values of a mesh shrunk by 10^k (given.scale10) *)
+(* by 10^(k * degree) before projecting them, and must use this table                                                                        *)
+HomDeg(nm) == IF nm \in {"edge_length", "edge_middle_point", "face_barycenter", "face_circumcenter", "cell_barycenter", "barycenter", "mean_edge_length"} THEN 1
+              ELSE IF nm \in {"face_area", "total_area", "mean_face_area"} THEN 2
+              ELSE IF nm \in {"cell_volume", "mean_cell_volume"} THEN 3 ELSE 0
 Judge(c, s, e) ==
-  IF e.op = "transform" THEN
+  IF e.op = "quantity" /\ e.deg # HomDeg(e.name) THEN Bad("recorded_with_the_quantitys_homogeneity_degree", e.name, "", s)
+  ELSE IF e.op = "transform" THEN
        IF e.exc # "" THEN Bad("transform_succeeds", s.fam, e.exc, s)
        ELSE Ok([s EXCEPT !.g = Motion(s.g, Mats[e.mi], e.s, e.t), !.moved = IF s.stored THEN "moved" ELSE s.moved])     \* only attributes stored BEFORE a move can be stale after it
   ELSE LET av == Avail(s, e)
@@ -71,7 +77,7 @@ Judge(c, s, e) ==
            again == IF e.name \in DOMAIN s.ncalls THEN s.ncalls[e.name] ELSE 0
            nxt == [s EXCEPT !.ncalls = (e.name :> again + 1) @@ s.ncalls, !.stored = s.stored \/ e.persistent = 1]
            cls == e.name \o (IF e.mode # "" THEN "/" \o e.mode ELSE "") \o (IF e.persistent = 1 THEN "/persistent" ELSE "")
-                  \o (IF again > 0 THEN "/computed_again" ELSE "") \o (IF s.moved = "moved" THEN "/after_transform" ELSE "")
+                  \o (IF again > 0 THEN "/computed_again" ELSE "") \o (IF s.moved = "moved" THEN "/after_transform" ELSE "") \o (IF s.tiny THEN "/tiny" ELSE "")
        IN IF av = "na" THEN Skip(nxt)
           ELSE IF av = "?" THEN Bad("unknown_quantity", e.name, "", nxt)
           ELSE IF e.exc # "" THEN Bad("computation_succeeds", cls, e.exc, nxt)
